@@ -313,8 +313,23 @@ func (h *handler) serveExec(w http.ResponseWriter, r *http.Request) {
 
 func validateCommand(b []byte) error {
 	// Ensure command can be deserialized before applying.
-	if err := proto.Unmarshal(b, &internal.Command{}); err != nil {
+	var cmd internal.Command
+	if err := proto.Unmarshal(b, &cmd); err != nil {
 		return fmt.Errorf("unable to unmarshal command: %s", err)
+	}
+
+	// Ensure the state machine can apply it. storeFSM.Apply runs on every meta
+	// node, again whenever the log is replayed, and panics on a command type it
+	// does not handle or whose extension is missing or cannot be decoded: such a
+	// command must never be committed.
+	desc, ok := commandExtensions[cmd.GetType()]
+	if !ok {
+		return fmt.Errorf("unable to apply command: unknown type %d", int32(cmd.GetType()))
+	}
+	if ext, err := proto.GetExtension(&cmd, desc); err != nil {
+		return fmt.Errorf("unable to apply command: %s: %s", cmd.GetType(), err)
+	} else if ext == nil {
+		return fmt.Errorf("unable to apply command: %s: %s", cmd.GetType(), proto.ErrMissingExtension)
 	}
 	return nil
 }
